@@ -1,6 +1,6 @@
 \* X01 thorough: scenarios  order: <= 3 add_source of {L1, L2, L3, None, L2.and(L1)} interleaved with clock settings {system, off, fixed 37s} and
 \* sample calls, <= 5 calls;  compose: one source tree of depth <= 2 (and, or, Some, &, Box, Arc, erased, nested Reporter with clock
-\* off / no reading / 1s / 37s and <= 2 sources; depth 2 with L1, L2 or None as the other operand) over leaves L1 (no extent, 1s range), L2 (point), L3 (no
+\* off / no reading / 1s / 37s and <= 2 sources; depth 2 with any of L1..L4, None as the other operand) over leaves L1 (no extent, 1s range), L2 (point), L3 (no
 \* samples), L4 (backwards range, 37s range), None;  norm: one sample of every extent over 6 instants (epoch, 0.999999999s, 1s, 10^9s+5ns,
 \* 1.000000001s, 37s) x every clock (system, off, no reading, every instant);  nested: the same under a nested Reporter x 4 outer clocks.
 SPECIFICATION Spec
